@@ -21,6 +21,9 @@ const (
 	dummyAudioFilterStageDummy    = 3
 )
 
+// dummyAudioFilterMaxFillMs 静音包只用于填充不超过该时长的视频时间戳间隔，超过则认为时间戳发生了跳跃
+const dummyAudioFilterMaxFillMs = 10 * 1000
+
 type DummyAudioFilter struct {
 	uk          string
 	waitAudioMs int
@@ -145,14 +148,28 @@ func (filter *DummyAudioFilter) handleDummyStage(msg base.RtmpMsg) {
 		filter.onPopProxy(msg)
 		filter.prevAudioTs = ats
 	} else {
-		for {
-			ats := filter.prevAudioTs + filter.calcAudioDurationMs()
-			if ats > msg.Header.TimestampAbs {
-				break
-			}
+		if msg.Header.TimestampAbs > filter.prevAudioTs && msg.Header.TimestampAbs-filter.prevAudioTs > dummyAudioFilterMaxFillMs {
+			// 视频时间戳发生了大的向前跳跃，不再逐帧填充静音包（否则填充的包数量与跳跃的时长成正比，
+			// 并且整个填充过程都发生在一次输入函数调用中），直接从新的时间戳处重新开始
+			Log.Warnf("[%s] video timestamp jump, restart dummy audio. prev audio ts=%d, video ts=%d",
+				filter.uk, filter.prevAudioTs, msg.Header.TimestampAbs)
+			ats := msg.Header.TimestampAbs
 			amsg := filter.makeOneAudio(ats)
 			filter.onPopProxy(amsg)
+			filter.onPopProxy(msg)
 			filter.prevAudioTs = ats
+			return
+		}
+
+		for {
+			// 注意，用64位计算，避免时间戳接近uint32最大值时翻转导致循环无法结束
+			ats := uint64(filter.prevAudioTs) + uint64(filter.calcAudioDurationMs())
+			if ats > uint64(msg.Header.TimestampAbs) {
+				break
+			}
+			amsg := filter.makeOneAudio(uint32(ats))
+			filter.onPopProxy(amsg)
+			filter.prevAudioTs = uint32(ats)
 		}
 		filter.onPopProxy(msg)
 	}
